@@ -78,6 +78,7 @@ func runCheck(id, tier string) (code int) {
 	if tier == "thorough" {
 		runVariants(id, p, r)
 		replaySeeded(id, p, r)
+		replayBenign(id, r)
 	}
 	return r.Finish()
 }
